@@ -571,6 +571,35 @@ struct Explorer {
         break;
       }
     }
+    // What ninja trusts for the future: the recorded dependencies of every statement it now considers up to date are
+    // the ones its command reports -- an older list that is still accepted would let an edit of a file the command
+    // has started to read go unnoticed in every later build (content is still right today, so only this sees it).
+    {
+      lp::DepsLogModel dl;
+      if (auto* f = after.Get(kDeps)) dl = lp::ParseDepsLog(f->data);
+      for (int si : stmts) {
+        const Stmt& s = v->stmts[si];
+        if (s.phony || s.deps.empty()) continue;
+        auto it = dl.deps.find(s.id);
+        if (it == dl.deps.end()) continue;   // no record: ninja rebuilds the statement ("deps missing")
+        const vfs::File* of = after.Get(s.id);
+        if (!of || vfs::TickToNs(of->mtime) > it->second.mtime) continue;   // record older than the output: not trusted
+        set<string> want(s.spec.hidden.begin(), s.spec.hidden.end()), got(it->second.deps.begin(), it->second.deps.end());
+        if (s.spec.depall) want.insert(s.spec.reads.begin(), s.spec.reads.end());
+        if (want == got) continue;
+        Violation x;
+        x.prop = prop;
+        x.clause = "recorded-deps-stale";
+        string g, w;
+        for (auto& q : got) g += q + " ";
+        for (auto& q : want) w += q + " ";
+        x.detail = "after exit 0 the deps log still says '" + s.id + "' reads {" + g + "} and the record counts as valid, but its command "
+                   "now reports {" + w + "}";
+        x.facts.set("stmt", s.id);
+        x.facts.set("ran_in_this_invocation", Started(r, s.id));
+        out->push_back(x);
+      }
+    }
   }
 
   /// C02: the same invocation repeated immediately runs nothing.
